@@ -109,7 +109,7 @@ def run(pid, tier):
                 traces.append(out)
                 cmds.append([drv, path, str(s), str(vlib.NCPU), str(nrand), out])
         vlib.run_many(cmds, timeout=1500)
-        events, rejects, _ = vlib.validate(traces, "BitmapTrace.tla", "BitmapTrace.cfg", xmx="3g", timeout=1500)
+        events, rejects, notes = vlib.validate(traces, "BitmapTrace.tla", "BitmapTrace.cfg", xmx="3g", timeout=1500)
 
         def mut(ev):
             if ev.get("e") != "Bm" or ev.get("dead") or ev["card"] < 1:
@@ -136,7 +136,12 @@ def run(pid, tier):
                            ["second operands are built element-wise by the library's Add (checked against their "
                             "definition by the trace spec)",
                             "histories beyond length 3 are sampled, not enumerated"],
-                           extra={"negative_control": neg, "model_negative_control": negm, "tiers": tiers,
+                           extra={"serialisation_format": {"what": "Codec steps: type byte, cardinality, total length and the first 40 bytes of "
+                                                          "the serialised object compared with the documented layout of its "
+                                                          "container (unclaimed conformance fact, never a violation)",
+                                                          "checked": notes.get("ser-checked", 0),
+                                                          "drift": {k: v for k, v in notes.items() if k.startswith("ser-drift")}},
+                                  "negative_control": neg, "model_negative_control": negm, "tiers": tiers,
                                   "container_transitions": trans, "walks": nw})
     finally:
         shutil.rmtree(work, ignore_errors=True)
